@@ -8,6 +8,7 @@ every per-level pattern (lists in their stored order), with no bound.
 import Pyiga.Proofs.MLRows
 import Pyiga.Proofs.MLSparsity
 import Pyiga.Proofs.MLMatvec
+import Pyiga.Proofs.MLGenerator
 
 namespace Pyiga.Props.C15
 open Pyiga.Index Pyiga.ML
@@ -295,6 +296,33 @@ theorem kron_partial_spec (As : List SpMat) (rows : List Nat) (restrict : Bool)
 
 example : kronPartialRaw [⟨2, 2, [(0,0,2),(1,1,3)]⟩, ⟨1, 2, [(0,0,5),(0,1,7)]⟩] [1] true
     = [(0,2,15),(0,3,21)] := by decide
+
+/-! ## sequential per-level numbering and the element generators -/
+
+/-- **`ReorderedTensorGenerator`**: for the data-tensor index `μ` the generator asks the assembler for
+the matrix position `reindex_from_multilevel([sequential_bidx[k][μ_k]], bs)`; with the row-major ravel
+(stride = number of block columns) this is exactly the position `entryAt μ` where the compact layout
+(`nonzero()`, `asmatrix`, `matvec`) stores that entry -- any number of levels, rectangular blocks. -/
+theorem generator_entry_spec (S : MLStructure) (μ : List Nat) (hr : InRangeZ S.bs S.bidx) :
+    S.generatorEntry false μ = S.entryAt μ :=
+  generatorEntry_eq_entryAt S μ hr
+
+/-- **`ReorderedMatrixGenerator`** (two levels, through `reindex_from_reordered`) asks for the same position -/
+theorem generator_entry_2_spec (b1 b2 : Nat × Nat) (p1 p2 : Pattern) (i j : Nat)
+    (hr : InRangeZ [b1, b2] [p1, p2]) (hi : i < p1.length) (hj : j < p2.length) :
+    ({ bs := [b1, b2], bidx := [p1, p2] } : MLStructure).generatorEntry2 false i j
+      = ({ bs := [b1, b2], bidx := [p1, p2] } : MLStructure).entryAt [i, j] :=
+  generatorEntry2_eq b1 b2 p1 p2 i j hr hi hj
+
+/-- the pinned `sequential_bidx` (`bs[j][0] * i + j`: stride = number of block ROWS) does not: for one
+2x3 block the entry stored at `(1,2)` is requested at `(1,1)` (replayed on the code; repaired in /repo) -/
+theorem sequential_bidx_as_coded_wrong :
+    let S : MLStructure := { bs := [(2, 3)], bidx := [[(0, 0), (1, 2)]] }
+    S.generatorEntry true [1] = (1, 1) ∧ S.entryAt [1] = (1, 2) ∧ S.generatorEntry false [1] = (1, 2) :=
+  generator_as_coded_wrong
+
+example : InRangeZ [(2, 3), (3, 2)] [[(0,0),(1,2)], [(2,1),(0,0)]] := by
+  simp [InRangeZ]
 
 /-! ## the matrix-vector product -/
 
